@@ -1,13 +1,18 @@
 """K1 unit for C09: the real spawn_future (harness/k1_future.cpp) against the model Future
 (coq/Proto/FutureDefs.v, handler 'future')."""
-import re
+import os, re
 from k1 import Unit
 
 # Which variant of the model the real code is tied to:
-#   "as_written"  the code of /repo before the repairs of findings 7 and 13 (p_fixed = false)
-#   "fixed"       /repo with both repairs applied                         (p_fixed = true)
-# Flip this single line to "fixed" once the two diffs of the C09 report are applied to /repo.
+#   "as_written"  the code of /repo before the repairs of findings 7, 13 and 14 (p_fixed = false)
+#   "fixed"       /repo with the three repairs applied                        (p_fixed = true)
+# Flip this single line to "fixed" once the diffs of the C09 report are applied to /repo.
+# (The repairs touch disjoint programs: 7 = drop/conndrop of a value whose copy throws, 13 = the
+# await/stop programs, 14 = the conndrop programs; with only some of them applied the programs of
+# the others keep failing, nothing else does.)
 MODEL_VARIANT = "as_written"
+# (development / mutation tests only: VERIF_C09_MODEL_VARIANT=fixed overrides the constant)
+VARIANT = os.environ.get("VERIF_C09_MODEL_VARIANT") or MODEL_VARIANT
 
 _ST = {"fut.state", "fut.evt", "fut.src", "ext.state", "cb.completed"}
 _ACTIONS = ("!val.ctor shared", "!val.dtor shared", "!val.dtor BAD shared", "!val.move THROWS",
@@ -16,8 +21,8 @@ _ACTIONS = ("!val.ctor shared", "!val.dtor shared", "!val.dtor BAD shared", "!va
 
 class SpawnFuture(Unit):
     name = "spawn_future/FutureState"; driver = "k1_future"; cfg = "shim17"; handler = "future"
-    maxruns = {"quick": 6000, "thorough": 120000}
-    nrandom = {"quick": 300, "thorough": 4000}
+    maxruns = {"quick": 3000, "thorough": 120000}
+    nrandom = {"quick": 200, "thorough": 4000}
 
     def programs(self, tier):
         progs = []
@@ -26,9 +31,17 @@ class SpawnFuture(Unit):
                 progs.append(("v2", o, fp, "nofault"))
         for fp in ("drop", "await", "stop"):
             progs.append(("v2", "v", fp, "fault"))
-        # the v1 scope (nest = attach): dropped futures are tied to the model; awaited ones are
-        # checked by the direct monitor only (attach puts its own stop source in between)
+        # the future is connected but its operation state is destroyed without being started
+        progs += [("v2", "v", "conndrop", "nofault"), ("v2", "d", "conndrop", "nofault")]
+        if tier != "quick":
+            progs += [("v2", "e", "conndrop", "nofault"), ("v2", "v", "conndrop", "fault")]
+        # the v1 scope (nest = attach): checked by the direct monitor only.  attach puts its own stop
+        # source in between and answers a stop request by completing the spawned operation with done
+        # *inside* request_stop (so complete() runs nested in drop() on thread Fut): not this model.
         progs += [("v1", "v", "drop", "nofault"), ("v1", "v", "drop", "fault"), ("v1", "e", "await", "nofault")]
+        # a throwing allocation / connect inside spawn_future (strong exception guarantee): monitor only
+        progs += [("v2", "v", "allocthrow", "nofault"), ("v2", "v", "connthrow", "nofault"),
+                  ("v1", "v", "connthrow", "nofault")]
         if tier != "quick":
             progs += [("v1", o, fp, "nofault") for o in "ved" for fp in ("drop", "await")
                       if ("v1", o, fp, "nofault") not in progs]
@@ -36,10 +49,10 @@ class SpawnFuture(Unit):
         return progs
 
     def tied(self, prog):
-        return not (prog[0] == "v1" and prog[2] != "drop")
+        return prog[0] != "v1" and prog[2] in ("drop", "await", "stop", "conndrop")
 
     def model_args(self, prog):
-        return "%s %s %s %s" % (MODEL_VARIANT, prog[1], prog[3], prog[2])
+        return "%s %s %s %s" % (VARIANT, prog[1], prog[3], prog[2])
 
     def project(self, prog, events):
         if not self.tied(prog):
@@ -68,7 +81,7 @@ class SpawnFuture(Unit):
                 out.append((t, "fut.state " + r))
             elif n == "fut.evt":
                 r2 = re.sub(r"#\d+", "W", r)
-                if r2.startswith("L.") and fp == "drop" and not r2.endswith("SIG"):
+                if r2.startswith("L.") and fp in ("drop", "conndrop") and not r2.endswith("SIG"):
                     continue            # drop spinning on evt_.ready()
                 out.append((t, "fut.evt " + r2))
             elif n == "fut.src":
@@ -106,13 +119,13 @@ class SpawnFuture(Unit):
             return "model not quiescent at the end of a complete implementation run: " + summary
         if f.get("deleted") != "1":
             return "model: shared state deleted %s times: %s" % (f.get("deleted"), summary)
-        if MODEL_VARIANT == "fixed":
+        if VARIANT == "fixed":
             if f.get("uaf") != "0" or f.get("bad") != "0":
                 return "fixed model reports use-after-free on an implementation trace: " + summary
             want = {"values_": "values_", "error_": "error_", "none": ""}[f.get("constructed")]
             if f.get("destroyed") != want:
                 return "fixed model: constructed/destroyed members differ: " + summary
-        want_root = "" if prog[2] == "drop" else ("done" if f.get("abwon") == "1" else f.get("expected"))
+        want_root = "" if prog[2] in ("drop", "conndrop") else ("done" if f.get("abwon") == "1" else f.get("expected"))
         if f.get("roots") != want_root:
             return "model: future result %r, expected %r: %s" % (f.get("roots"), want_root, summary)
         return None
